@@ -311,6 +311,93 @@ def int_subclass_values(res, T, t, cls):
                     res.violation(f"C09:readback:{T}.{sc.name}:{path}", f"{T}.{sc.name} = {value!r} ({how}) reads back {getattr(m, sc.name)!r}", case)
 
 
+def real_values_and_handlers(res, T, t, cls):
+    """(1) Numbers that are not integers and lie OUTSIDE the range, also by less than one (1024.5 for 0..1024), as float,
+    Fraction, Decimal: refused like any other out-of-range value, by attribute and by constructor keyword.
+    (2) An application's change handler that corrects the value it is told about (caps it, snaps it to a grid) by assigning
+    the SAME controller again: the inner assignment is an assignment like any other - applied when in range, refused when not."""
+    import decimal
+    import fractions
+    from rv.errors import ControllerValueError
+    for sc in t.controllers:
+        if sc.kind not in ("range", "compact", "no_offset") or not sc.attached:
+            continue
+        for value, how in ((sc.max + 0.5, "float"), (sc.max + 0.001, "float"), (sc.min - 0.5, "float"), (fractions.Fraction(2 * sc.max + 1, 2), "Fraction"),
+                           (decimal.Decimal(sc.max) + decimal.Decimal("0.25"), "Decimal"), (fractions.Fraction(2 * sc.min - 1, 2), "Fraction")):
+            for path in ("setattr", "constructor"):
+                res.case((T, sc.name, "real-out-of-range", how, str(value), path))
+                res.count("real_out_of_range_assignments")
+                case = {"type": T, "controller": sc.name, "value": str(value), "how": how, "path": path}
+                try:
+                    if path == "setattr":
+                        m = cls()
+                        setattr(m, sc.name, value)
+                    else:
+                        m = cls(**{sc.name: value})
+                except Exception:
+                    continue                      # refused (ControllerValueError, or the type itself is refused)
+                got = getattr(m, sc.name)
+                res.violation(f"C09:accepted-out-of-range:{T}.{sc.name}:{path}:{how}", f"{T}.{sc.name} = {value} ({how}; range {sc.min}..{sc.max}) is accepted and reads back {got!r}", case)
+        if sc.max - sc.min < 8:
+            continue
+        cap = sc.min + (sc.max - sc.min) // 2
+        for style in ("instance-handler", "subclass-handler"):
+            calls = []
+
+            def handler(owner, value, _name=sc.name, _cap=cap):
+                calls.append(value)
+                if value > _cap:
+                    setattr(owner, _name, _cap)
+            calls_owner = [None]
+            if style == "instance-handler":
+                m = cls()
+                setattr(m, f"on_{sc.name}_changed", lambda value, down=False, up=False, m=m: handler(m, value))
+            else:
+                sub_cls = type(cls.__name__, (cls,), {f"on_{sc.name}_changed": (lambda self, value, down=False, up=False: handler(self, value)),
+                                                      "__module__": cls.__module__, "__doc__": cls.__doc__})
+                m = sub_cls()
+                del calls[:]
+            calls_owner[0] = m
+            case = {"type": T, "controller": sc.name, "family": "capping-handler", "style": style, "cap": cap}
+            res.case((T, sc.name, "capping-handler", style))
+            res.count("capping_handler_cases")
+            try:
+                setattr(m, sc.name, sc.max)
+                got = getattr(m, sc.name)
+            except Exception as e:
+                res.violation(f"C09:inrange-raised:{T}.{sc.name}:handler", f"{T}.{sc.name} = {sc.max} with a change handler that caps the value at {cap} raised {e!r}", case)
+                continue
+            if not calls:
+                res.count("capping_handler_never_called")
+                continue
+            if got != cap:
+                res.violation(f"C09:readback:{T}.{sc.name}:handler", f"{T}.{sc.name} = {sc.max}; the change handler assigned {cap} (in range) to the same controller; it reads {got!r}", case)
+                continue
+            # the same handler, now correcting to a value that is NOT in range: refused, as anywhere
+            refused = []
+
+            def bad_handler(value, down=False, up=False, _name=sc.name, _hi=sc.max):
+                if value == _hi:
+                    try:
+                        setattr(calls_owner[0], _name, _hi + 7)
+                        refused.append(False)
+                    except ControllerValueError:
+                        refused.append(True)
+            m2 = cls()
+            calls_owner[0] = m2
+            setattr(m2, f"on_{sc.name}_changed", bad_handler)
+            try:
+                setattr(m2, sc.name, sc.max)
+            except Exception:
+                pass
+            res.count("out_of_range_assignments_inside_handlers")
+            if refused and not refused[0]:
+                res.violation(f"C09:accepted-out-of-range:{T}.{sc.name}:inside-handler", f"inside its own change handler, {T}.{sc.name} = {sc.max + 7} (range {sc.min}..{sc.max}) is accepted "
+                                                                                       f"(reads {getattr(m2, sc.name)!r})", case)
+    from rv.modules import MODULE_CLASSES
+    MODULE_CLASSES[t.mtype] = cls
+
+
 def embedded_assignments(res, T, t, cls):
     """A module that sits in the project of a constructed MetaModule which exposes one of its controllers: assigning that very
     controller on the embedded module (in range) reads back exactly - whatever travels up and down the mapping."""
@@ -422,6 +509,7 @@ def run_shard(spec_, res):
         enum_through_metamodule(res, T, spec.load()[T], MODULE_CLASSES[spec.load()[T].mtype])
         int_subclass_values(res, T, spec.load()[T], MODULE_CLASSES[spec.load()[T].mtype])
         embedded_assignments(res, T, spec.load()[T], MODULE_CLASSES[spec.load()[T].mtype])
+        real_values_and_handlers(res, T, spec.load()[T], MODULE_CLASSES[spec.load()[T].mtype])
         res.count("types_visited")
     # the labelled aliases of a MetaModule's exposed controllers are assignment paths to controllers as well
     from .. import aliasprobe
